@@ -223,8 +223,13 @@ def _relations(run, backend, kind, spec, table, muts, lazy, schemas, obj):
         c.reset_config_context()
 
     bk = "pandas" if kind == "pandas" else "polars"
-    rel("R1", got["SCHEMA_ONLY"] == vs, "SCHEMA_ONLY", bk)
-    rel("R2", got["DATA_ONLY"] == vd, "DATA_ONLY", bk)
+    if spec.get("strict") == "filter":
+        # the level of a parser is not documented: only R3/R4 are judged
+        run.count("undecided:R1-R2-parser-level-under-depth")
+        run.count(f"depth:filter-family:{kind}")
+    else:
+        rel("R1", got["SCHEMA_ONLY"] == vs, "SCHEMA_ONLY", bk)
+        rel("R2", got["DATA_ONLY"] == vd, "DATA_ONLY", bk)
     rel("R3", (got["SCHEMA_AND_DATA"] == "accept") ==
         (got["SCHEMA_ONLY"] == "accept" and got["DATA_ONLY"] == "accept"),
         None, bk)
@@ -321,10 +326,24 @@ def part_depth(run, ctx):
 # ================================================================ driver
 def run(run, ctx):
     import pandera.config as c
+    import os
     if c.CONFIG != c.PanderaConfig():
-        # the harness itself was started with PANDERA_* set: expectations of
-        # parts A/B/D assume the documented defaults
-        run.note_inconclusive("harness started with PANDERA_* variables set")
+        harness_env = sorted(k for k in os.environ if k.startswith("PANDERA_"))
+        if harness_env:
+            # the harness itself was started with PANDERA_* set: expectations
+            # of parts A/B/D assume the documented defaults
+            run.note_inconclusive(
+                f"harness started with PANDERA_* variables set: {harness_env}")
+            return
+        # no variable is set and the global configuration is still not the
+        # documented default: the environment is not read as documented.
+        # Part C (fresh interpreters over the env matrix) gives the witnesses.
+        if ctx.shard == 0:
+            run.case(["no-env-defaults"], True)
+            run.violation("defaults-not-in-force-without-env-vars",
+                          {"CONFIG": repr(c.CONFIG),
+                           "documented_default": repr(c.PanderaConfig())}, None)
+        part_env(run, ctx)
         return
     part_scope(run, ctx)
     c.reset_config_context()
@@ -350,6 +369,11 @@ def finalize(run, ctx):
         "depth:R1:evaluated": 600 if q else 20000,
         "depth:R2:evaluated": 600 if q else 20000,
         "depth:R3:evaluated": 600 if q else 20000,
+        "depth:filter-family:pandas": 18 if q else 350,
+        "depth:filter-family:polars.DataFrame": 8 if q else 150,
+        "env:ctx_probe:reject": 70 if q else 450,
+        "env:ctx_probe:accept": 90 if q else 550,
+        "env:ctx_probe:same": 130 if q else 850,
         "depth:R4-lazyframe-default-schema-only:evaluated": 140 if q else 4500,
         "depth:R4-dataframe-default-full:evaluated": 450 if q else 15000,
         "depth:R5:evaluated": 900 if q else 30000,
